@@ -87,6 +87,10 @@ pub struct ExecSpec {
     pub decisions: Vec<u16>,
     pub io: IoSpec,
     pub timeout_ms: u64,
+    /// Instead of the pipeline: one single-threaded pass of the input's packets (all of one link)
+    /// through one real `LinkValidator::run` on the main thread (C06).
+    #[serde(default)]
+    pub seq_pass: bool,
 }
 
 impl ExecSpec {
@@ -108,6 +112,7 @@ impl ExecSpec {
             decisions: Vec::new(),
             io: IoSpec::default(),
             timeout_ms: 60_000,
+            seq_pass: false,
         }
     }
     pub fn cmdline(&self) -> String {
